@@ -384,6 +384,7 @@ func OpenReader(path string) (*Reader, error) {
 			// Create a temporary file to load the bloom filter
 			tempFile, err := os.CreateTemp("", "bloom-filter-*.tmp")
 			if err != nil {
+				pos += filterSize
 				continue // Skip this filter if we can't create temp file
 			}
 			tempPath := tempFile.Name()
@@ -393,6 +394,7 @@ func OpenReader(path string) (*Reader, error) {
 			tempFile.Close()
 			if err != nil {
 				os.Remove(tempPath)
+				pos += filterSize
 				continue
 			}
 
@@ -401,7 +403,11 @@ func OpenReader(path string) (*Reader, error) {
 			os.Remove(tempPath) // Clean up temp file
 
 			if err != nil {
-				continue // Skip this filter
+				// Skip this filter: move on to the header of the next one
+				// (without this the bytes of the rejected filter were parsed
+				// as filter headers)
+				pos += filterSize
+				continue
 			}
 
 			// Add the bloom filter to our list
